@@ -66,16 +66,17 @@ SB_OP(lerp)
 SB_OP(lerp_row)
 {
     uint8_t f = (uint8_t)tokul(t[2]);
-    uint64_t h = 14695981039346656037ULL;
+    // every answer goes to the judge (the property fixes the end points and the range, not the rounding inside)
+    std::vector<uint8_t> all;
+    all.reserve(256 * 33);
     for (int s = 0; s < 256; s++)
         for (int k = 0; k <= 32; k++) {
             sb_rgb_color_t a = { f, f, f };
             sb_rgb_color_t b = { (uint8_t)s, (uint8_t)s, (uint8_t)s };
             sb_rgb_color_t c = sb_rgb_color_linear_interpolation(a, b, k / 32.0f);
-            h ^= c.red;
-            h *= 1099511628211ULL;
+            all.push_back(c.red);
         }
-    addu(out, h);
+    add(out, hex(all.data(), all.size()));
 }
 // rgbw m r g b [fixed | rr rg rb] -> r g b w     m: s=subtract min, f=fixed value, r=reference colour
 SB_OP(rgbw)
@@ -110,6 +111,10 @@ SB_OP(rgbw_row)
         sb_rgbw_conversion_use_reference_color(&conv, ref);
     }
     uint64_t h = 14695981039346656037ULL;
+    std::vector<uint8_t> all;
+    bool dump = t[2] != "s";  // float arithmetic: every answer goes to the judge; min subtraction is exact integer arithmetic
+    if (dump)
+        all.reserve(4 * 65536);
     for (int g = 0; g < 256; g++)
         for (int b = 0; b < 256; b++) {
             sb_rgb_color_t c = { red, (uint8_t)g, (uint8_t)b };
@@ -118,9 +123,14 @@ SB_OP(rgbw_row)
             for (int i = 0; i < 4; i++) {
                 h ^= (v >> (8 * i)) & 0xff;
                 h *= 1099511628211ULL;
+                if (dump)
+                    all.push_back((v >> (8 * i)) & 0xff);
             }
         }
-    addu(out, h);
+    if (dump)
+        add(out, hex(all.data(), all.size()));
+    else
+        addu(out, h);
 }
 
 // rgbwseq step... : one conversion object through a sequence of set-up calls and conversions
